@@ -13,7 +13,7 @@ for d in sorted(val):
     r = val[d]
     if not r.get("confirmed"):
         continue
-    prop = re.search(r"mut_(C\d+)", d).group(1); m = os.path.basename(d)
+    prop = re.search(r"_(C\d+)/", d).group(1); m = ("r2" if "/m2_" in d else "") + os.path.basename(d)
     notes = open(os.path.join(d, "notes.md")).read() if os.path.exists(os.path.join(d, "notes.md")) else ""
     sid = f"{prop}-{m}"
     dst = f"/verif/seeded/{sid}"
